@@ -116,7 +116,10 @@ def g_add_abs(rng, seq):
         return {"msg": {"t": "note_on", "ch": ch, "time": t, "note": note,
                         "velocity": rng.randrange(1, 128) if rng.random() < 0.9 else 0}}
     if kind < 0.8:
-        return {"msg": {"t": "note_off", "ch": ch, "time": t, "note": note}}
+        off = {"t": "note_off", "ch": ch, "time": t, "note": note}
+        if rng.random() < 0.15:
+            off["velocity"] = rng.randrange(0, 128)      # a release velocity: legal, and it makes two note-offs unequal
+        return {"msg": off}
     if kind < 0.9:
         n, dn = rng.choice([(4, 4), (3, 4), (6, 8), (2, 4)])
         return {"msg": {"t": "time_signature", "ch": 0, "time": t, "numerator": n, "denominator": dn}}
@@ -236,12 +239,15 @@ def _helper_list(rng):
     """A grid / note-value list produced at apply time by the library's own helpers (the documented way to build these
     arguments) from integer bounds."""
     r = rng.random()
-    if r < 0.4:
+    if r < 0.35:
         return {"helper": ["get_default_step_sizes", rng.choice([0, 1, 1, 2]), rng.choice([0, 0, 1])]}
-    if r < 0.75:
+    if r < 0.65:
         return {"helper": ["get_note_durations", rng.choice([1, 2, 4]), rng.choice([2, 4, 8])]}
-    if r < 0.9:
+    if r < 0.78:
         return {"helper": ["tuplets", rng.choice([1, 2, 4]), rng.choice([2, 4]), rng.choice([[3, 2], [5, 4]])]}
+    if r < 0.93:
+        # "every note value there is" : plain, tuplet and dotted values together - a table of 20 and more entries
+        return {"helper": ["all", rng.choice([4, 4, 2]), rng.choice([8, 8, 4]), rng.choice([[3, 2], [5, 4]]), rng.choice([1, 2])]}
     return {"helper": ["dotted", rng.choice([1, 2, 4]), rng.choice([2, 4]), rng.choice([1, 2])]}
 
 
@@ -258,6 +264,8 @@ def resolve_list(x):
         return base
     if h[0] == "tuplets":
         return base + util.get_tuplet_durations(base, h[3][0], h[3][1])
+    if h[0] == "all":
+        return base + util.get_tuplet_durations(base, h[3][0], h[3][1]) + util.get_dotted_note_durations(base, h[4])
     return base + util.get_dotted_note_durations(base, h[3])
 
 
